@@ -8,7 +8,7 @@ def mk(n,pid,extra=""):
     t=re.sub(r"PROPERTY C02 .*?\n\n\(Code this property is anchored in:.*?\)\n",lambda m:pb,base,flags=re.S)
     t=re.sub(r"\(Earlier rounds.*?\)\n",lambda m:AVOID%extra,t,flags=re.S)
     t=t.replace('wt20','wt%d'%n).replace('"property": "C02"','"property": "%s"'%pid)
-    assert 'C02' not in t, pid
+    assert pid == 'C02' or 'C02' not in t, pid
     open('/tmp/seed/task_wt%d.txt'%n,'w').write(t)
     subprocess.check_call(['git','-C','/repo','worktree','add','--detach','/tmp/seed/wt%d'%n,'HEAD'],stdout=subprocess.DEVNULL,stderr=subprocess.DEVNULL)
 if __name__=='__main__':
